@@ -11,7 +11,15 @@ kinds of cases (each a complete enumeration):
   compute  msbar_masses.compute on the product of reference-scale choices for (c, b, t) (at the mass, above
            near/far, below near/far) x coupling reference nf 3-6 x order x method x ratios x xif:
            consistent inputs -> no error, sorted, every mass a fixed point in the stated patch (independent
-           re-evolution); inconsistent inputs -> ValueError
+           re-evolution); inconsistent inputs -> ValueError; plus explicit inputs whose fixed points are not ascending
+           (given so / only after the solve) -> ValueError, with a sorted control
+  card     the glue io/runcards.masses(theory card, evolution method): linear matching ratios and xif on the card, order
+           with its QED entry, em_running, ModEv -> coupling method; same fixed-point oracle (all masses solved in-patch)
+
+Two defects of msbar_masses.evolve are recorded in known_findings (decoupling factor applied once to m^2; mass matched at
+k^2 xif2 m_h^2).  They are *modelled* here (same independent walk with these two switches): a failing case is filed under
+the recorded signature only if eko's number equals the model's within TOL_MODEL; every other failure of the same cases
+carries a `beyond-known-defects` signature with order / quark / wall / direction and is a violation.
 """
 
 import itertools
@@ -26,20 +34,25 @@ TECHNIQUE = "complete input lattice vs independent mpmath mass-RGE integrator, e
 LEVEL_TEXT = (
     "all combinations of reference-scale placements of the three heavy quarks, coupling reference nf, order, method, "
     "matching ratios and xif on the lattice are run through msbar_masses.compute and re-evolved with an independent "
-    "integrator; decoupling tables decided exactly"
+    "integrator; decoupling tables decided exactly; the theory-card glue runcards.masses on a small product; the two recorded "
+    "defects of evolve are pinned by a model of the wrong behaviour, so that the cases they affect still decide everything else"
 )
 LEVEL_NOTE = (
     "decides on the lattice only; the coupling a_s^(nf)(mu) is taken from eko's Couplings (C15/C16's subject); "
     "literature tables typed by hand with import-time cross-checks; if the pinned NumPy refuses the 1-element-array to "
     "scalar conversion inside solve(), the remaining oracles are evaluated with fsolve's argument/result converted to "
-    "scalars (the conversion failure itself is reported as a violation)"
+    "scalars (the conversion failure itself is reported as a violation); cases hit by a recorded defect are compared with the "
+    "model of that defect (published constants except the two 6-digit three-loop constants, taken from the code's table that kind "
+    "`table` decides) instead of the specification"
 )
 FLOOR_NONTRIVIAL = 20
 
-TOL_FIXED = 1e-6
+TOL_FIXED = 1e-6  # on m, when a matching with the three-loop constants (6 printed digits) is involved
+TOL_FIXED_EXACT = 1e-10  # otherwise (fsolve converges to rounding)
+TOL_EVOLVE_EXACT = 1e-9
 import os
 
-COMPUTE_TIMEOUT_S = int(os.environ.get("VERIF_C18_TIMEOUT", "300"))  # one compute() takes 0.1-3 s; a runaway (e.g. a root search drifting into a Landau pole) is a failure
+COMPUTE_TIMEOUT_S = int(os.environ.get("VERIF_C18_TIMEOUT", "300"))  # CPU seconds; one compute() takes 0.1-3 s; a runaway (e.g. a root search drifting into a Landau pole) is a failure
 COUPLING_REFS = {3: (1.1, 0.40), 4: (3.0, 0.25), 5: (91.2, 0.118), 6: (500.0, 0.095)}
 OPTIONS = {
     "c": {"at": (1.27, 1.27), "up1": (1.10, 2.0), "up2": (0.88, 10.0), "dn1": (1.30, 1.2), "dn2": (1.29, 1.25)},
@@ -61,6 +74,31 @@ def _shimmed_fsolve():
     return types.SimpleNamespace(fsolve=fsolve)
 
 
+import contextlib
+
+
+@contextlib.contextmanager
+def _cpu_limit():
+    """TimeoutError after COMPUTE_TIMEOUT_S of CPU time of this process (a runaway search burns CPU; a machine shared with other
+    jobs must not turn a 3 s call into a "timeout"); wall-clock backstop at 20x."""
+    import signal
+
+    def _alarm(_sig, _frm):
+        raise TimeoutError(f"msbar_masses.compute still running after {COMPUTE_TIMEOUT_S} s of CPU time")
+
+    old_handler = signal.signal(signal.SIGALRM, _alarm)
+    old_prof = signal.signal(signal.SIGPROF, _alarm)
+    signal.alarm(20 * COMPUTE_TIMEOUT_S)
+    signal.setitimer(signal.ITIMER_PROF, COMPUTE_TIMEOUT_S)
+    try:
+        yield
+    finally:
+        signal.setitimer(signal.ITIMER_PROF, 0)
+        signal.alarm(0)
+        signal.signal(signal.SIGALRM, old_handler)
+        signal.signal(signal.SIGPROF, old_prof)
+
+
 def _call_compute(inputs, nf_ref, order, method, ratios, xif2, shim):
     from eko import msbar_masses as mm
     from eko.quantities.couplings import CouplingEvolutionMethod, CouplingsInfo
@@ -69,22 +107,13 @@ def _call_compute(inputs, nf_ref, order, method, ratios, xif2, shim):
     mu_ref, alphas = COUPLING_REFS[nf_ref]
     ci = CouplingsInfo.from_dict(dict(alphas=alphas, alphaem=0.0075, ref=(mu_ref, nf_ref), em_running=False))
     masses = HeavyQuarkMasses([QuarkMassRef(list(inputs[q])) for q in "cbt"])
-    import signal
-
     saved = mm.optimize
     if shim:
         mm.optimize = _shimmed_fsolve()
-
-    def _alarm(_sig, _frm):
-        raise TimeoutError(f"msbar_masses.compute still running after {COMPUTE_TIMEOUT_S} s")
-
-    old_handler = signal.signal(signal.SIGALRM, _alarm)
-    signal.alarm(COMPUTE_TIMEOUT_S)
     try:
-        return mm.compute(masses, ci, (order, 0), CouplingEvolutionMethod(method), list(ratios), xif2)
+        with _cpu_limit():
+            return mm.compute(masses, ci, (order, 0), CouplingEvolutionMethod(method), list(ratios), xif2)
     finally:
-        signal.alarm(0)
-        signal.signal(signal.SIGALRM, old_handler)
         mm.optimize = saved
 
 
@@ -218,6 +247,38 @@ def _eval_kernel(case):
     return res
 
 
+# ------------------------------------------------------------------------------------------ model of the two recorded defects
+TOL_MODEL = 1e-11  # agreement demanded between eko and the model of its two *recorded* defects (measured: see max_rel_dev_known_defect_model)
+
+
+def _code_constants(nl):
+    """The two three-loop constants the code carries with 6 printed digits (decided separately by kind `table`)."""
+    from eko import msbar_masses as mm
+
+    up = mm.compute_matching_coeffs_up(nl)
+    return {(3, 0): float(up[3, 0]), (3, 1): float(up[3, 1])}
+
+
+def _defect_walls(m2s, ratios, xif2):
+    """Recorded defect `matching-scale-position`: the mass is matched at k_j^2 xif2 m_j^2 instead of k_j m_j^2."""
+    return [k * k * xif2 * m for k, m in zip(ratios, m2s)]
+
+
+def _known_defect_model(M, m2_ref, origin, target, walls_defect, ratios, a_of, order, method, g3):
+    """m^2 as msbar_masses.evolve is *recorded* to compute it: linear-mass decoupling factor applied once to m^2
+    (`decoupling-factor-not-squared`), matching scales at k^2 xif2 m^2 (`matching-scale-position`), L = ln k.
+    Returns (value with exact reciprocal, value with series reciprocal, couplings used)."""
+    seen = []
+
+    def a_rec(s, nf):
+        v = a_of(s, nf)
+        seen.append(v)
+        return v
+
+    lo, hi, _ = M.walk(m2_ref, origin, target, walls_defect, ratios, a_rec, order, method, g3, factor_power=1, up_override_of=_code_constants)
+    return lo, hi, seen
+
+
 # ------------------------------------------------------------------------------------------ evolve
 M2_FIXED = [1.27**2, 4.18**2, 163.0**2]
 
@@ -282,23 +343,32 @@ def _eval_evolve(case):
         return res
     devs = [abs(float(mp.mpf(got) / r - 1)) for r in (lo, hi)]
     dev = min(devs)
-    tol = 2e-7  # the code carries 6 printed digits in the three-loop constants
+    # order 4 carries the three-loop constants (6 printed digits in the code); below that every coefficient is exact
+    tol = 2e-7 if order >= 4 else TOL_EVOLVE_EXACT
     res.info = {"max_rel_dev_evolve": dev if dev <= tol else 0.0}
     if not dev <= tol:
-        # is it the linear-vs-squared confusion?  (m^2 multiplied by zeta instead of zeta^2)
-        kind = "decoupling"
-        if k != 1.0 or xif2 != 1.0:
-            kind = "matching-scale-position"
+        # Two defects of evolve are recorded (known_findings): the linear-mass factor is applied once to m^2, and the mass is
+        # matched at k^2 xif2 m_h^2.  A failure is filed under the recorded signature ONLY if the returned value is the one
+        # these two defects predict; anything else is a different defect.
+        unit = k == 1.0 and xif2 == 1.0  # the one matching scale crossed here is not displaced
+        devm = math.inf
+        try:
+            lo1, hi1, seen1 = _known_defect_model(M, m2_ref, origin, target, _defect_walls(M2_FIXED, ratios, xif2), ratios, a_of, order, method, g3)
+            if all(math.isfinite(v) and v > 0 for v in seen1):
+                devm = min(abs(float(mp.mpf(got) / r - 1)) for r in (lo1, hi1))
+        except Exception:  # noqa  (model not evaluable, e.g. coupling beyond its pole at the displaced matching scale)
+            devm = math.inf
+        if devm <= TOL_MODEL:
+            kind = "decoupling-factor-not-squared" if unit else "matching-scale-position"
+            res.info["max_rel_dev_known_defect_model"] = devm
         else:
-            # diagnostic hypothesis: the factor of the linear mass applied once to the squared mass
-            lo1, hi1, _ = M.walk(m2_ref, origin, target, walls, ratios, a_of, order, method, g3, factor_power=1)
-            if min(abs(float(mp.mpf(got) / r - 1)) for r in (lo1, hi1)) < 1e-7:
-                kind = "decoupling-factor-not-squared"
+            kind = f"beyond-known-defects/order={order}/nl={nl}/{direction}/ratios={'unit' if unit else 'non-unit'}"
         res.fail(
             f"msbar_masses.evolve/{kind}",
             f"{where}: evolve gives m^2 = {got!r} from m^2 = {m2_ref} at {origin} to {target}; the decoupling relation "
             f"m^(nl+1) = m^(nl) * zeta (matching scale {wall!r} = k*m_h^2, L = ln {k}) requires {mp.nstr(lo, 15)} "
-            f"(series-truncated inverse: {mp.nstr(hi, 15)}); relative deviation {dev:.3e}",
+            f"(series-truncated inverse: {mp.nstr(hi, 15)}); relative deviation {dev:.3e}; deviation from the value predicted "
+            f"by the two recorded defects (factor not squared, matching at k^2*xif2*m_h^2): {devm:.3e} (limit {TOL_MODEL})",
         )
     res.nontrivial = order >= 3 or span != "zero"
     res.outcome = f"evolve/{span}/order={order}"
@@ -330,6 +400,86 @@ def _perturbative(inputs, nf_ref, order, method, ratios, xif2):
     return True
 
 
+def expected_unsorted(inputs, nf_ref, order, method, ratios, xif2, qed=0, em_running=False):
+    """Independent reading of "the computed masses are sorted" on the input side: reasons why the fixed points cannot be
+    ascending (such an input is inconsistent and has to be refused).  Decides (i) masses given at their own scale in the wrong
+    order, (ii) ONE mass to be solved for whose running mass, taken to a neighbour's mass M, lies on the wrong side of M
+    (m(mu) - mu is strictly decreasing, so the fixed point lies on that side too); everything else is left undecided ([])."""
+    import warnings
+
+    from vf.ref import c18_mass as M
+    from vf.ref.c15_mk import make_couplings
+
+    own = [inputs[q][0] == inputs[q][1] for q in "cbt"]
+    bad = []
+    for i, j in ((0, 1), (1, 2), (0, 2)):
+        if own[i] and own[j] and inputs["cbt"[i]][0] > inputs["cbt"[j]][0] * (1 + 1e-6):
+            bad.append(f"m_{'cbt'[i]}(m) = {inputs['cbt'[i]][0]} > m_{'cbt'[j]}(m) = {inputs['cbt'[j]][0]} (both given at their own scale)")
+    if bad or sum(own) != 2:
+        return bad
+    i = own.index(False)
+    q = "cbt"[i]
+    m, mu = inputs[q]
+    active = i + 4 <= nf_ref
+    nf_target = i + 4 if active else i + 3
+    m2s = [inputs[x][0] ** 2 for x in "cbt"]  # the own entry is a placeholder: its wall is never crossed below
+    walls = [r * v for r, v in zip(ratios, m2s)]
+    walls[i] = 0.0 if active else math.inf
+    nf_cur = 3 + sum(1 for w in walls if w <= mu**2)
+    mu_ref, alphas = COUPLING_REFS[nf_ref]
+    with warnings.catch_warnings():
+        warnings.simplefilter("ignore")
+        sc = make_couplings((order, qed), em_running, method, (mu_ref, nf_ref), alphas, 0.0075, m2s, [r * xif2 for r in ratios], "MSBAR")
+
+        def a_of(s, nf):
+            return float(sc.a(float(s) * xif2, nf)[0])
+
+        for j in (i - 1, i + 1):
+            if not 0 <= j <= 2:
+                continue
+            M2 = m2s[j]
+            try:
+                lo, hi, _ = M.walk(m**2, (mu**2, nf_cur), (M2, nf_target), walls, ratios, a_of, order, method, None)
+            except Exception:  # noqa
+                continue
+            r_lo, r_hi = float(lo / M2 - 1), float(hi / M2 - 1)
+            if j > i and min(r_lo, r_hi) > 2e-3:
+                bad.append(f"m_{q}(m_{'cbt'[j]}) = {math.sqrt(float(lo))!r} > m_{'cbt'[j]} = {inputs['cbt'[j]][0]}: the fixed point of {q} lies above the heavier quark")
+            if j < i and max(r_lo, r_hi) < -2e-3:
+                bad.append(f"m_{q}(m_{'cbt'[j]}) = {math.sqrt(float(lo))!r} < m_{'cbt'[j]} = {inputs['cbt'[j]][0]}: the fixed point of {q} lies below the lighter quark")
+    return bad
+
+
+CARD_INPUTS = {"c": (1.10, 2.0), "b": (3.6, 10.0), "t": (170.0, 100.0)}  # every mass has to be solved for, each inside its own patch
+CARD_NF_REF = 5
+CARD_METHODS = {"iterate-exact": "exact", "truncated": "expanded", "perturbative-expanded": "expanded", "decompose-exact": "exact"}  # as documented for ModEv
+
+
+def _call_card(case, shim):
+    """The anchored glue: theory card -> runcards.masses(theory, evolution method of the operator card)."""
+    from eko import msbar_masses as mm
+    from eko.io import runcards
+    from eko.io.types import EvolutionMethod
+    from vf.core import cards
+
+    mu_ref, alphas = COUPLING_REFS[CARD_NF_REF]
+    theory, _ = cards.build(
+        dict(
+            order=list(case["order"]), alphas=alphas, alphaem=0.0075, ref=[mu_ref, CARD_NF_REF], em_running=case["em_running"],
+            masses=[CARD_INPUTS[q][0] for q in "cbt"], mass_refs=[CARD_INPUTS[q][1] for q in "cbt"], scheme="MSBAR",
+            ratios=list(case["lin_ratios"]), xif=case["xif"],
+        )
+    )
+    saved = mm.optimize
+    if shim:
+        mm.optimize = _shimmed_fsolve()
+    try:
+        with _cpu_limit():
+            return runcards.masses(theory, EvolutionMethod(case["ev_method"]))
+    finally:
+        mm.optimize = saved
+
+
 def _eval_compute(case):
     import warnings
 
@@ -339,10 +489,24 @@ def _eval_compute(case):
     from eko import msbar_masses as mm
     from vf.ref import c18_mass as M
 
-    inputs = {q: OPTIONS[q][case["choice"][i]] for i, q in enumerate("cbt")}
-    nf_ref, order, method, ratios, xif2 = case["nf_ref"], case["order"], case["method"], case["ratios"], case["xif2"]
+    card = case["kind"] == "card"
+    qed, em_running = 0, False
+    if card:
+        # linear ratios and xif on the card; the statement's (squared-scale) ratios are their squares
+        inputs = dict(CARD_INPUTS)
+        nf_ref, order, qed, em_running = CARD_NF_REF, case["order"][0], case["order"][1], case["em_running"]
+        method = CARD_METHODS[case["ev_method"]]
+        ratios, xif2 = [r * r for r in case["lin_ratios"]], case["xif"] ** 2
+    else:
+        if "inputs" in case:
+            inputs = {q: tuple(case["inputs"][q]) for q in "cbt"}
+        else:
+            inputs = {q: OPTIONS[q][case["choice"][i]] for i, q in enumerate("cbt")}
+        nf_ref, order, method, ratios, xif2 = case["nf_ref"], case["order"], case["method"], case["ratios"], case["xif2"]
     res = Result()
     bad = expected_consistency(inputs, nf_ref)
+    if not bad and "inputs" in case:
+        bad = expected_unsorted(inputs, nf_ref, order, method, ratios, xif2)
     unit = all(r == 1.0 for r in ratios) and xif2 == 1.0
     if not bad and not _perturbative(inputs, nf_ref, order, method, ratios, xif2):
         # e.g. alpha_s^(3)(1.1 GeV) = 0.4 with matching ratio 0.25 and xif2 = 0.25: the coupling would have to be run
@@ -351,13 +515,15 @@ def _eval_compute(case):
         res.nontrivial = False
         return res
     where = f"inputs={inputs} coupling_ref={COUPLING_REFS[nf_ref]}@nf{nf_ref} order={order} method={method} ratios={ratios} xif2={xif2}"
+    if card:
+        where = f"runcards.masses(theory card: order={case['order']} em_running={em_running} matching_ratios={case['lin_ratios']} xif={case['xif']}; ev. method {case['ev_method']}) " + where
     out = None
     exc = None
     with warnings.catch_warnings():
         warnings.simplefilter("ignore")
         for shim in (False, True):
             try:
-                out = _call_compute(inputs, nf_ref, order, method, ratios, xif2, shim)
+                out = _call_card(case, shim) if card else _call_compute(inputs, nf_ref, order, method, ratios, xif2, shim)
                 exc = None
                 break
             except ValueError as e:
@@ -378,8 +544,11 @@ def _eval_compute(case):
                 exc = e
                 break
     trivial = all(inputs[q][0] == inputs[q][1] for q in "cbt")
+    pre = "runcards.masses" if card else "msbar_masses.compute"
     if bad:
         res.outcome = "inconsistent->" + (type(exc).__name__ if exc is not None else "returned")
+        if any("fixed point of" in b or "own scale" in b for b in bad):
+            res.outcome = "unsorted->" + (type(exc).__name__ if exc is not None else "returned")
         if not isinstance(exc, ValueError):
             res.fail(
                 "msbar_masses.compute/inconsistent-input-accepted",
@@ -389,11 +558,13 @@ def _eval_compute(case):
         return res
     if exc is not None:
         res.outcome = "consistent->" + type(exc).__name__
-        res.fail(f"msbar_masses.compute/consistent-input-raises/{type(exc).__name__}", f"{where}: {type(exc).__name__}: {exc}")
+        res.fail(f"{pre}/consistent-input-raises/{type(exc).__name__}", f"{where}: {type(exc).__name__}: {exc}")
         return res
+    if card and not (isinstance(out, list) and all(isinstance(v, float) for v in out)):
+        res.fail("runcards.masses/return-type", f"{where}: a list of floats is announced, got {type(out).__name__}: {out!r}")
     out = np.array(out, dtype=float)
     if not (out.shape == (3,) and np.all(np.isfinite(out)) and np.all(np.diff(out) >= 0)):
-        res.fail("msbar_masses.compute/not-sorted", f"{where}: returned {out.tolist()}")
+        res.fail(f"{pre}/not-sorted", f"{where}: returned {out.tolist()}")
         return res
     # fixed points
     walls = [r * m for r, m in zip(ratios, out)]
@@ -401,12 +572,14 @@ def _eval_compute(case):
     mxdev = 0.0
     ncross_total = 0
     nambiguous = 0
+    mxmodel = 0.0
+    nknown = 0
     with warnings.catch_warnings():
         warnings.simplefilter("ignore")
         from vf.ref.c15_mk import make_couplings
 
         mu_ref, alphas = COUPLING_REFS[nf_ref]
-        sc = make_couplings((order, 0), False, method, (mu_ref, nf_ref), alphas, 0.0075, out.tolist(), [r * xif2 for r in ratios], "MSBAR")
+        sc = make_couplings((order, qed), em_running, method, (mu_ref, nf_ref), alphas, 0.0075, out.tolist(), [r * xif2 for r in ratios], "MSBAR")
 
         def a_of(s, nf):
             return float(sc.a(float(s) * xif2, nf)[0])
@@ -416,7 +589,7 @@ def _eval_compute(case):
             m, mu = inputs[q]
             if mu == m:
                 if abs(out[i] / m**2 - 1) > 1e-14:
-                    res.fail("msbar_masses.compute/given-at-own-scale", f"{where}: m_{q}({m}) = {m} given but {math.sqrt(out[i])!r} returned")
+                    res.fail(f"{pre}/given-at-own-scale", f"{where}: m_{q}({m}) = {m} given but {math.sqrt(out[i])!r} returned")
                 continue
             active = i + 4 <= nf_ref
             nf_target = i + 4 if active else i + 3
@@ -433,25 +606,49 @@ def _eval_compute(case):
             try:
                 lo, hi, ncross = M.walk(m**2, (mu**2, nf_cur), (float(out[i]), nf_target), walls_i, ratios, a_of, order, method, g3)
             except Exception as e:  # noqa
-                res.fail("msbar_masses.compute/reference-walk-impossible", f"{where}: quark {q}: {type(e).__name__}: {e}")
+                res.fail(f"{pre}/reference-walk-impossible", f"{where}: quark {q}: {type(e).__name__}: {e}")
                 continue
             ncross_total += ncross
             dev = min(abs(float(mp.sqrt(r / mp.mpf(float(out[i]))) - 1)) for r in (lo, hi))
-            mxdev = max(mxdev, dev) if dev <= TOL_FIXED else mxdev
-            if not dev <= TOL_FIXED:
+            # the three-loop constants (6 printed digits in the code) enter only through a matching at order 4
+            tol_fp = TOL_FIXED if (ncross > 0 and order >= 4) else TOL_FIXED_EXACT
+            mxdev = max(mxdev, dev) if dev <= tol_fp else mxdev
+            if not dev <= tol_fp:
+                # recorded (known_findings): consequences of the two defects of evolve.  Filed under the recorded signature ONLY
+                # if the returned mass is the fixed point of the evolution *with exactly these two defects*
+                devm = math.inf
+                try:
+                    walls_d = _defect_walls(out.tolist(), ratios, xif2)
+                    walls_d[i] = walls_i[i]
+                    lo1, hi1, seen1 = _known_defect_model(M, m**2, (mu**2, nf_cur), (float(out[i]), nf_target), walls_d, ratios, a_of, order, method, g3)
+                    if all(math.isfinite(v) and v > 0 for v in seen1):
+                        devm = min(abs(float(mp.sqrt(r / mp.mpf(float(out[i]))) - 1)) for r in (lo1, hi1))
+                except Exception:  # noqa
+                    devm = math.inf
+                if ncross > 0 and devm <= TOL_MODEL:
+                    sig = f"{pre}/fixed-point/crossing=True/ratios={'unit' if unit else 'non-unit'}"
+                    mxmodel = max(mxmodel, devm)
+                    nknown += 1
+                else:
+                    sig = f"{pre}/fixed-point/beyond-known-defects/crossing={ncross > 0}/order={order}/q={q}"
                 res.fail(
-                    f"msbar_masses.compute/fixed-point/crossing={ncross > 0}/ratios={'unit' if unit else 'non-unit'}",
+                    sig,
                     f"{where}: returned m_{q} = {math.sqrt(out[i])!r} (nf={nf_target} patch), but evolving m_{q}({mu}) = {m} from "
-                    f"nf={nf_cur} to that scale gives m_{q}(m_{q}) = {mp.nstr(mp.sqrt(lo), 12)} (relative deviation {dev:.3e} > {TOL_FIXED})",
+                    f"nf={nf_cur} to that scale gives m_{q}(m_{q}) = {mp.nstr(mp.sqrt(lo), 12)} (relative deviation {dev:.3e} > {tol_fp}); "
+                    f"deviation from the fixed point predicted by the two recorded defects of evolve (factor not squared, matching at "
+                    f"k^2*xif2*m_h^2): {devm:.3e} (limit {TOL_MODEL})",
                 )
     res.info = {"max_rel_dev_fixed_point": mxdev, "crossings": ncross_total, "ambiguous_skipped": nambiguous}
+    if nknown:
+        res.info["max_rel_dev_known_defect_model"] = mxmodel
+        res.info["known_defect_quarks"] = nknown
     res.nontrivial = not trivial
-    res.outcome = f"consistent->ok/crossings={min(ncross_total, 2)}"
+    res.outcome = ("card->ok" if card else "consistent->ok") + f"/crossings={min(ncross_total, 2)}"
     return res
 
 
 def evaluate(case):
-    return {"table": _eval_table, "kernel": _eval_kernel, "evolve": _eval_evolve, "compute": _eval_compute}[case["kind"]](case)
+    return {"table": _eval_table, "kernel": _eval_kernel, "evolve": _eval_evolve, "compute": _eval_compute, "card": _eval_compute}[case["kind"]](case)
 
 
 RATIO_XIF_QUICK = [([1.0, 1.0, 1.0], 1.0), ([0.5, 2.0, 1.0], 4.0)]
@@ -463,7 +660,7 @@ def run(ctx):
     cases = [{"kind": "table", "nl": nl} for nl in (3, 4, 5)]
     cases += [{"kind": "kernel", "order": o, "nf": nf} for o in (1, 2, 3, 4) for nf in (3, 4, 5, 6)]
     rx = RATIO_XIF_THOROUGH if thorough else RATIO_XIF_QUICK
-    for o, (r, x), nl, d, span in itertools.product((1, 2, 3, 4), rx, (3, 4), ("up", "down"), ("zero", "wide")):
+    for o, (r, x), nl, d, span in itertools.product((1, 2, 3, 4), rx, (3, 4, 5), ("up", "down"), ("zero", "wide")):
         for method in ("expanded", "exact") if thorough else ("expanded",):
             cases.append({"kind": "evolve", "order": o, "method": method, "ratios": r, "xif2": x, "nl": nl, "direction": d, "span": span})
     om = [(1, "expanded"), (2, "exact"), (3, "expanded"), (4, "expanded")]
@@ -478,14 +675,36 @@ def run(ctx):
             continue
         for (o, m), (r, x) in itertools.product(om, rx):
             cases.append({"kind": "compute", "choice": list(choice), "nf_ref": nf_ref, "order": o, "method": m, "ratios": r, "xif2": x})
+    # the ordering refusal: (i) masses given at their own scale in the wrong order, (ii) only the *solved* mass ends up below
+    # the lighter quark (b given as m_b(3 GeV) = 4.5 -> m_b(m_b) ~ 4.2 < m_c = 4.3), (iii) control of (ii): sorted, must be solved
+    for nf_ref, inp, (o, m) in (
+        [(n, {"c": [5.0, 5.0], "b": [4.18, 4.18], "t": [163.0, 163.0]}, (3, "expanded")) for n in (3, 4, 5, 6)]
+        + [(n, {"c": [1.27, 1.27], "b": [170.0, 170.0], "t": [163.0, 163.0]}, (3, "expanded")) for n in (4, 5)]
+        + [(n, {"c": [4.3, 4.3], "b": [4.5, 3.0], "t": [163.0, 163.0]}, om_) for n in (3, 4) for om_ in ((2, "exact"), (3, "expanded"))]
+        + [(n, {"c": [4.0, 4.0], "b": [4.5, 3.0], "t": [163.0, 163.0]}, (2, "exact")) for n in (3, 4)]
+    ):
+        cases.append({"kind": "compute", "inputs": inp, "nf_ref": nf_ref, "order": o, "method": m, "ratios": [1.0, 1.0, 1.0], "xif2": 1.0})
+    # the glue of the anchored io/runcards.py: linear ratios and xif on the card, QED entry of the order, ModEv -> coupling method
+    card_orders = [[3, 0], [3, 1], [2, 2]]
+    for (o, xif), ev in zip(itertools.product(card_orders, (1.0, 2.0)), itertools.cycle(("iterate-exact", "truncated"))):
+        cases.append({"kind": "card", "order": o, "xif": xif, "ev_method": ev, "lin_ratios": [0.8, 1.2, 1.0], "em_running": False})
+    cases.append({"kind": "card", "order": [3, 1], "xif": 2.0, "ev_method": "truncated", "lin_ratios": [0.8, 1.2, 1.0], "em_running": True})
+    if thorough:
+        for (o, xif), ev in zip(itertools.product(card_orders, (1.0, 2.0)), itertools.cycle(("perturbative-expanded", "decompose-exact"))):
+            cases.append({"kind": "card", "order": o, "xif": xif, "ev_method": ev, "lin_ratios": [0.8, 1.2, 1.0], "em_running": False})
+        for o, ev in itertools.product(([4, 0], [4, 1]), ("iterate-exact", "truncated")):
+            cases.append({"kind": "card", "order": o, "xif": 1.0, "ev_method": ev, "lin_ratios": [1.2, 0.8, 1.5], "em_running": o[1] > 0})
     ctx.run_cases(cases, evaluate, chunksize=2)
     ctx.rule = (
-        "table: nl 3,4,5; kernel: order 1-4 x nf 3-6 x 5x5 coupling pairs; evolve: order 1-4 x (ratios, xif2) sets x wall c/b x "
+        "table: nl 3,4,5; kernel: order 1-4 x nf 3-6 x 5x5 coupling pairs; evolve: order 1-4 x (ratios, xif2) sets x wall c/b/t x "
         "up/down x zero-length / wide span (x method in thorough); compute: product of 5 reference-scale choices per quark "
         "(at the mass, above near/far, below near/far; far ones lie beyond another quark's threshold) ^3 x coupling reference "
         "nf 3-6 = 500 inputs, the consistent ones x (order, method) x (ratios, xif2) [quick: 4 (order,method) pairs x 2 "
-        "(ratios,xif2); thorough: 8 x 7], the inconsistent ones once. non-trivial = a mass had to be solved for / a refusal "
-        "was demanded"
+        "(ratios,xif2); thorough: 8 x 7], the inconsistent ones once; 12 explicit inputs for the ordering refusal (own-scale masses "
+        "in the wrong order c>b x nf_ref 3-6, b>t x nf_ref 4,5; solved m_b(m_b) < m_c x nf_ref 3,4 x 2 (order, method); sorted control "
+        "x nf_ref 3,4); card: theory cards order (3,0),(3,1),(2,2) x xif 1,2 with alternating ModEv + one with em_running [thorough: "
+        "+ 2 more ModEv and order (4,0),(4,1) x 2 ModEv with other ratios] through runcards.masses. non-trivial = a mass had to be "
+        "solved for / a refusal was demanded"
     )
     ctx.assumptions += [
         "consistency rules as read from the error texts: a quark active at the coupling reference must be given at or above its "
@@ -495,7 +714,14 @@ def run(ctx):
         "configurations in which alpha_s is not finite or exceeds 0.6 at a matching scale / mass reference scale are outside the domain (counted as trivial)",
         "a_s^(nf)(mu) itself is taken from eko's Couplings object built with the returned masses (scheme MSBAR, ratios*xif2)",
         "a quark whose reference scale lies between another quark's mass and that quark's matching scale is not checked for the fixed point (flavour scheme of the input not defined by the statement)",
-        f"fixed point tolerance {TOL_FIXED} relative on m; kernels 1e-8 (exact) / 1e-12 (expanded); evolution across a matching scale 2e-7",
+        f"fixed point tolerance on m: {TOL_FIXED_EXACT} relative; {TOL_FIXED} where a matching at order 4 enters (three-loop constants "
+        f"with 6 printed digits); kernels 1e-8 (exact) / 1e-12 (expanded); evolution across a matching scale {TOL_EVOLVE_EXACT} (order <= 3) / 2e-7 (order 4)",
+        f"recorded defects (known_findings: factor not squared; matching at k^2 xif2 m_h^2) are modelled; a failure keeps the recorded "
+        f"signature only if eko agrees with the model within {TOL_MODEL} (measured: max_rel_dev_known_defect_model), else it is a violation",
+        "masses whose fixed points are not ascending are inconsistent input (refusal demanded); decided on the input side only for masses "
+        "given at their own scale and for one solved mass next to such a mass (sign of m_q(m_neighbour) - m_neighbour)",
+        "card: the statement's squared-scale ratios are the squares of the card's matching_ratios, xif2 = xif^2; ModEv names containing "
+        "'exact' mean the exact coupling/kernel, the others the expanded one; a_s from eko's Couplings built with the card's full order tuple",
         "order-4 comparisons substitute eko's own gamma_m^(3) when (and only when) that explains a kernel mismatch; the "
         "mismatch is then reported under a signature naming gamma_qcd_as4",
     ]
